@@ -176,6 +176,7 @@ type termEntry struct {
 
 func c03Lookup(w *W, y int) {
 	w.Class(fmt.Sprintf("lookup/century%02d", y/100))
+	historyTouch(w, y)
 	base := calendar.NewSolarFromYmd(y, 6, 15).GetLunar()
 	tbl := base.GetJieQiTable()
 	var model []termEntry
